@@ -493,6 +493,9 @@ class CallMixin:
                 g = self.spec_eval(s, src, fid, s.heap0, None, {})
                 self.emit(s, "pre@%s#%d:%s" % (name, n, label), g, "pre", props or c.props)
                 s.assume(g)
+            for label, src, props in c.assumes:
+                s.assume(self.spec_eval(s, src, fid, s.heap0, None, {}))
+                self.assumptions.add("assumed at %s: %s" % (c.qualname, label))
             # termination inside a declared cycle
             if self.cur is not None and c.cycle and self.cur.cycle == c.cycle and c.decreases and self.cur.decreases:
                 callee_m = self.spec_value(s, c.decreases, fid, s.heap0, None, {})
